@@ -527,6 +527,7 @@ func (ndb *nodeDB) deleteVersion(version int64, cache *rootkeyCache) error {
 		if err != nil {
 			return err
 		}
+		verifPoint("prune:root-fetched")
 		// the root should be reformatted to (version, 0); it is written before the
 		// literal root is deleted so that a flush of the batch in between never
 		// leaves the store without either of them. The node may be shared with
